@@ -8,6 +8,6 @@ for d in "$1"/H-C*-r* "$1"/H-C*/r*; do [ -d "$d" ] || continue
   git -C /repo apply $d/patch.diff
   out=$(./check $id 2>&1 | grep "^VIOLATION" | head -1)
   git -C /repo checkout -- .
-  ( cd /verif/go && GOFLAGS=-mod=mod GOPROXY=off GOSUMDB=off GOTOOLCHAIN=local go run -tags verif ./cmd/gotocoq -out ../coq/Gen >/dev/null 2>&1 )
+  ( cd /verif/go && GOFLAGS=-mod=mod GOPROXY=off GOSUMDB=off GOTOOLCHAIN=local go run -tags verif ./cmd/gotocoq -out ../coq/Gen >/dev/null 2>&1; go run ./cmd/effects -repo /repo -out ../coq/Gen/Effects.v >/dev/null 2>&1 )
   if [ -n "$out" ]; then echo "ALARM $id $k: $out"; else echo "QUIET $id $k"; fi
 done
